@@ -9,14 +9,14 @@ func init() {
 	addMutants(
 		Mutant{Property: "C07", Name: "ik-released-before-executor", File: ctxf,
 			Old: "\t\tdefer e.commander.referencer.release(referenceIks, ik)\n\n\t\tchainedLog, err := e.commander.store.ReadLogWithIdempotencyKey(ctx, ik)\n\t\tif err == nil {\n\t\t\treturn chainedLog, nil\n\t\t}",
-			New: "\t\tchainedLog, err := e.commander.store.ReadLogWithIdempotencyKey(ctx, ik)\n\t\te.commander.referencer.release(referenceIks, ik)\n\t\tif err == nil {\n\t\t\treturn chainedLog, nil\n\t\t}", Expect: "R07a:run:"},
+			New: "\t\tchainedLog, err := e.commander.store.ReadLogWithIdempotencyKey(ctx, ik)\n\t\te.commander.referencer.release(referenceIks, ik)\n\t\tif err == nil {\n\t\t\treturn chainedLog, nil\n\t\t}", Expect: "R07a:"},
 		Mutant{Property: "C07", Name: "ik-lookup-before-take", File: ctxf,
 			Old: "\t\tif err := e.commander.referencer.take(referenceIks, ik); err != nil {\n\t\t\treturn nil, err\n\t\t}\n\t\tdefer e.commander.referencer.release(referenceIks, ik)\n\n\t\tchainedLog, err := e.commander.store.ReadLogWithIdempotencyKey(ctx, ik)\n\t\tif err == nil {\n\t\t\treturn chainedLog, nil\n\t\t}\n\t\tif err != nil && !storageerrors.IsNotFoundError(err) {\n\t\t\treturn nil, err\n\t\t}",
-			New: "\t\tchainedLog, err := e.commander.store.ReadLogWithIdempotencyKey(ctx, ik)\n\t\tif err == nil {\n\t\t\treturn chainedLog, nil\n\t\t}\n\t\tif err != nil && !storageerrors.IsNotFoundError(err) {\n\t\t\treturn nil, err\n\t\t}\n\t\tif err := e.commander.referencer.take(referenceIks, ik); err != nil {\n\t\t\treturn nil, err\n\t\t}\n\t\tdefer e.commander.referencer.release(referenceIks, ik)", Expect: "R07a:run:key-reserved-before-lookup-and-execution"},
+			New: "\t\tchainedLog, err := e.commander.store.ReadLogWithIdempotencyKey(ctx, ik)\n\t\tif err == nil {\n\t\t\treturn chainedLog, nil\n\t\t}\n\t\tif err != nil && !storageerrors.IsNotFoundError(err) {\n\t\t\treturn nil, err\n\t\t}\n\t\tif err := e.commander.referencer.take(referenceIks, ik); err != nil {\n\t\t\treturn nil, err\n\t\t}\n\t\tdefer e.commander.referencer.release(referenceIks, ik)", Expect: "R07a:"},
 		Mutant{Property: "C07", Name: "ik-no-reservation", File: ctxf,
-			Old: "\t\tif err := e.commander.referencer.take(referenceIks, ik); err != nil {\n\t\t\treturn nil, err\n\t\t}\n\t\tdefer e.commander.referencer.release(referenceIks, ik)\n", New: "", Expect: "R07a:run:key-reserved-before-lookup-and-execution"},
+			Old: "\t\tif err := e.commander.referencer.take(referenceIks, ik); err != nil {\n\t\t\treturn nil, err\n\t\t}\n\t\tdefer e.commander.referencer.release(referenceIks, ik)\n", New: "", Expect: "R07a:"},
 		Mutant{Property: "C07", Name: "ik-lookup-skipped", File: ctxf,
-			Old: "\t\tchainedLog, err := e.commander.store.ReadLogWithIdempotencyKey(ctx, ik)\n\t\tif err == nil {\n\t\t\treturn chainedLog, nil\n\t\t}\n\t\tif err != nil && !storageerrors.IsNotFoundError(err) {\n\t\t\treturn nil, err\n\t\t}\n", New: "\t\t_ = storageerrors.IsNotFoundError\n", Expect: "R07a:run:key-reserved-before-lookup-and-execution"},
+			Old: "\t\tchainedLog, err := e.commander.store.ReadLogWithIdempotencyKey(ctx, ik)\n\t\tif err == nil {\n\t\t\treturn chainedLog, nil\n\t\t}\n\t\tif err != nil && !storageerrors.IsNotFoundError(err) {\n\t\t\treturn nil, err\n\t\t}\n", New: "\t\t_ = storageerrors.IsNotFoundError\n", Expect: "R07a:"},
 		Mutant{Property: "C07", Name: "ik-only-on-transactions", File: ctxf,
 			Old: "\t\tif e.parameters.IdempotencyKey != \"\" {\n\t\t\tlog = log.WithIdempotencyKey(e.parameters.IdempotencyKey)\n\t\t}", New: "\t\tif e.parameters.IdempotencyKey != \"\" && allocateTXID {\n\t\t\tlog = log.WithIdempotencyKey(e.parameters.IdempotencyKey)\n\t\t}", Expect: "R07b:"},
 		Mutant{Property: "C07", Name: "dry-run-uses-unstamped-builder", File: ctxf,
